@@ -775,3 +775,12 @@ package constraint
 //@   modifies c.items[*]
 //@   ensures c.items[idx].comment == comment && c.items[idx].value == old(c.items[idx].value) && c.items[idx].jsonType == old(c.items[idx].jsonType) && c.items[idx].src == old(c.items[idx].src)
 //@   ensures normal ==> (forall j :: 0 <= j && j < len(c.items) && j != idx ==> c.items[j] == old(c.items[j]))
+
+//@ func (AdditionalProperties).Mode()
+//@   props C09 C01
+//@   pure
+//@   ensures result == c.mode
+//@ func (AdditionalProperties).TypeName()
+//@   props C09 C01
+//@   pure
+//@   ensures result == c.typeName
